@@ -3,6 +3,7 @@ package sim
 import (
 	"bytes"
 	"fmt"
+	"io"
 	"math"
 	"strings"
 
@@ -19,6 +20,7 @@ import (
 	"github.com/ipfs/go-graphsync/dedupkey"
 	"github.com/ipfs/go-graphsync/donotsendfirstblocks"
 	gsmsg "github.com/ipfs/go-graphsync/message"
+	gsmsgv2 "github.com/ipfs/go-graphsync/message/v2"
 )
 
 // genExtNode draws an extension payload: scalars, null, nested maps and lists, bytes, links.
@@ -279,6 +281,34 @@ func (s *c11) Build(w *World) {
 		s.msgs = append(s.msgs, m)
 		s.script.Add(func() { s.p.Send(s.r.ID, m) })
 	}
+	// the handler's own stream interface: all messages written to one stream with ToNet,
+	// read back one by one with FromNet from a reader that hands out drawn fragment sizes
+	if len(s.msgs) > 0 {
+		h := gsmsgv2.NewMessageHandler()
+		var buf bytes.Buffer
+		for i, m := range s.msgs {
+			if err := h.ToNet(s.r.ID, m, &buf); err != nil {
+				s.viol = &Violation{Property: "C11", Rule: "R1", Signature: "well-formed-message-unencodable", Detail: fmt.Sprintf("message %d: %v", i, err)}
+			}
+		}
+		rd := &chunkReader{data: buf.Bytes(), sizes: []int{1 + t.Draw(7), 1 + t.Draw(64), 1 + t.Draw(4096)}}
+		for i, m := range s.msgs {
+			if s.viol != nil {
+				break
+			}
+			got, err := h.FromNet(s.p.ID, rd)
+			if err != nil {
+				s.viol = &Violation{Property: "C11", Rule: "R2", Signature: "stream-of-messages:FromNet-error", Detail: fmt.Sprintf("message %d of %d written to one stream could not be read back with FromNet: %v", i+1, len(s.msgs), err)}
+			} else if d := MessagesEquivalent(m, got); d != "" {
+				s.viol = &Violation{Property: "C11", Rule: "R2", Signature: "stream-of-messages:differs:" + strings.Fields(d)[0], Detail: fmt.Sprintf("message %d of %d read back with FromNet: %s", i+1, len(s.msgs), d)}
+			}
+		}
+		if s.viol == nil {
+			if _, err := h.FromNet(s.p.ID, rd); err != io.EOF {
+				s.viol = &Violation{Property: "C11", Rule: "R2", Signature: "stream-of-messages:no-clean-end", Detail: fmt.Sprintf("after the last message FromNet returned %v, want io.EOF", err)}
+			}
+		}
+	}
 	// the three extension codecs on generated values
 	for i := 0; i < 5; i++ {
 		v := int64(t.Draw(1 << 20))
@@ -307,6 +337,30 @@ func (s *c11) Build(w *World) {
 		}
 	}
 	s.descr = fmt.Sprintf("%d messages", len(s.msgs))
+}
+
+// chunkReader hands out the data in fragments whose sizes cycle through a drawn list.
+type chunkReader struct {
+	data  []byte
+	sizes []int
+	n     int
+}
+
+func (c *chunkReader) Read(p []byte) (int, error) {
+	if len(c.data) == 0 {
+		return 0, io.EOF
+	}
+	k := c.sizes[c.n%len(c.sizes)]
+	c.n++
+	if k > len(p) {
+		k = len(p)
+	}
+	if k > len(c.data) {
+		k = len(c.data)
+	}
+	copy(p, c.data[:k])
+	c.data = c.data[k:]
+	return k, nil
 }
 
 // roundTripNode sends an extension payload through dag-cbor as the wire does.
